@@ -50,7 +50,8 @@ Record config := mkConfig {
   opt_fsync : bool;      (* optimizedFsync *)
   (* the code as it is has both set; false = the code before the fix (kept to show what the fix is needed for) *)
   persist_first : bool;  (* fix b025328: a Ready's entries are saved before they are published when they are committed in the same Ready *)
-  clean_orphans : bool   (* fix c523023: startRaft removes snap files newer than the chosen snapshot that the WAL does not record *)
+  clean_orphans : bool;  (* fix c523023: startRaft removes snap files newer than the chosen snapshot that the WAL does not record *)
+  flush_first : bool     (* RockDB.Backup flushes the write-back cache (HyperLogLog) before the checkpoint is queued; false = not *)
 }.
 
 (* raftNode.purgeFile: keep <= 1 means the default *)
@@ -244,6 +245,7 @@ Inductive ap_pc :=
 | ApApplied (b : batch)
 | ApDone
 | ApTrigger
+| ApFlushed                 (* Backup() has flushed the write-back cache *)
 | ApTriggered (i : N)
 | ApTriggerDone.
 
@@ -255,7 +257,9 @@ Inductive rc_pc := RcStart | RcChosen (i : N) | RcRestored (i : N) | RcNone | Rc
 
 (* persistent: segs (live WAL segments, oldest first), unflushed / unsynced (trailing records of the tail
    segment still in the process buffer / not fdatasync'ed), snapfiles, ckpts (complete checkpoints with
-   their content), engine (None: content not to be trusted).
+   their content), engine (None: content not to be trusted), cache (the applied indices whose effect sits only in
+   the store's write-back cache; volatile: lost with the process, part of what the engine serves), restoring (the
+   marker file of restoreFromPath: the checkpoint whose files are being copied into the data directory; persistent).
    volatile: rc (restart program), nrel (the first nrel live segments are not locked by this process),
    wstate/wcommit (WAL.state), hcommit (commit of the last hard state saved or read back), latest
    (RockDB.latestSnapIndex), rdp/rdseq/rs_last/published (raft loop), rd_done (highest published index whose
@@ -269,6 +273,8 @@ Record state := mkState {
   snapfiles : list N;
   ckpts : list (N * option (list N));
   engine : option (list N);
+  cache : list N;
+  restoring : option N;
   rc : rc_pc;
   nrel : nat;
   wstate : bool;
@@ -291,40 +297,41 @@ Record state := mkState {
   acked : N;
   proposed : N
 }.
-Definition set_segs (s : state) (v : list seg) : state := mkState v (unflushed s) (unsynced s) (snapfiles s) (ckpts s) (engine s) (rc s) (nrel s) (wstate s) (wcommit s) (hcommit s) (latest s) (rdp s) (rdseq s) (rd_done s) (rs_last s) (published s) (queue s) (app s) (applied s) (snapi s) (sns s) (ckp s) (pg_wal s) (pg_snap s) (acked s) (proposed s).
-Definition set_unflushed (s : state) (v : nat) : state := mkState (segs s) v (unsynced s) (snapfiles s) (ckpts s) (engine s) (rc s) (nrel s) (wstate s) (wcommit s) (hcommit s) (latest s) (rdp s) (rdseq s) (rd_done s) (rs_last s) (published s) (queue s) (app s) (applied s) (snapi s) (sns s) (ckp s) (pg_wal s) (pg_snap s) (acked s) (proposed s).
-Definition set_unsynced (s : state) (v : nat) : state := mkState (segs s) (unflushed s) v (snapfiles s) (ckpts s) (engine s) (rc s) (nrel s) (wstate s) (wcommit s) (hcommit s) (latest s) (rdp s) (rdseq s) (rd_done s) (rs_last s) (published s) (queue s) (app s) (applied s) (snapi s) (sns s) (ckp s) (pg_wal s) (pg_snap s) (acked s) (proposed s).
-Definition set_snapfiles (s : state) (v : list N) : state := mkState (segs s) (unflushed s) (unsynced s) v (ckpts s) (engine s) (rc s) (nrel s) (wstate s) (wcommit s) (hcommit s) (latest s) (rdp s) (rdseq s) (rd_done s) (rs_last s) (published s) (queue s) (app s) (applied s) (snapi s) (sns s) (ckp s) (pg_wal s) (pg_snap s) (acked s) (proposed s).
-Definition set_ckpts (s : state) (v : list (N * option (list N))) : state := mkState (segs s) (unflushed s) (unsynced s) (snapfiles s) v (engine s) (rc s) (nrel s) (wstate s) (wcommit s) (hcommit s) (latest s) (rdp s) (rdseq s) (rd_done s) (rs_last s) (published s) (queue s) (app s) (applied s) (snapi s) (sns s) (ckp s) (pg_wal s) (pg_snap s) (acked s) (proposed s).
-Definition set_engine (s : state) (v : option (list N)) : state := mkState (segs s) (unflushed s) (unsynced s) (snapfiles s) (ckpts s) v (rc s) (nrel s) (wstate s) (wcommit s) (hcommit s) (latest s) (rdp s) (rdseq s) (rd_done s) (rs_last s) (published s) (queue s) (app s) (applied s) (snapi s) (sns s) (ckp s) (pg_wal s) (pg_snap s) (acked s) (proposed s).
-Definition set_rc (s : state) (v : rc_pc) : state := mkState (segs s) (unflushed s) (unsynced s) (snapfiles s) (ckpts s) (engine s) v (nrel s) (wstate s) (wcommit s) (hcommit s) (latest s) (rdp s) (rdseq s) (rd_done s) (rs_last s) (published s) (queue s) (app s) (applied s) (snapi s) (sns s) (ckp s) (pg_wal s) (pg_snap s) (acked s) (proposed s).
-Definition set_nrel (s : state) (v : nat) : state := mkState (segs s) (unflushed s) (unsynced s) (snapfiles s) (ckpts s) (engine s) (rc s) v (wstate s) (wcommit s) (hcommit s) (latest s) (rdp s) (rdseq s) (rd_done s) (rs_last s) (published s) (queue s) (app s) (applied s) (snapi s) (sns s) (ckp s) (pg_wal s) (pg_snap s) (acked s) (proposed s).
-Definition set_wstate (s : state) (v : bool) : state := mkState (segs s) (unflushed s) (unsynced s) (snapfiles s) (ckpts s) (engine s) (rc s) (nrel s) v (wcommit s) (hcommit s) (latest s) (rdp s) (rdseq s) (rd_done s) (rs_last s) (published s) (queue s) (app s) (applied s) (snapi s) (sns s) (ckp s) (pg_wal s) (pg_snap s) (acked s) (proposed s).
-Definition set_wcommit (s : state) (v : N) : state := mkState (segs s) (unflushed s) (unsynced s) (snapfiles s) (ckpts s) (engine s) (rc s) (nrel s) (wstate s) v (hcommit s) (latest s) (rdp s) (rdseq s) (rd_done s) (rs_last s) (published s) (queue s) (app s) (applied s) (snapi s) (sns s) (ckp s) (pg_wal s) (pg_snap s) (acked s) (proposed s).
-Definition set_hcommit (s : state) (v : N) : state := mkState (segs s) (unflushed s) (unsynced s) (snapfiles s) (ckpts s) (engine s) (rc s) (nrel s) (wstate s) (wcommit s) v (latest s) (rdp s) (rdseq s) (rd_done s) (rs_last s) (published s) (queue s) (app s) (applied s) (snapi s) (sns s) (ckp s) (pg_wal s) (pg_snap s) (acked s) (proposed s).
-Definition set_latest (s : state) (v : N) : state := mkState (segs s) (unflushed s) (unsynced s) (snapfiles s) (ckpts s) (engine s) (rc s) (nrel s) (wstate s) (wcommit s) (hcommit s) v (rdp s) (rdseq s) (rd_done s) (rs_last s) (published s) (queue s) (app s) (applied s) (snapi s) (sns s) (ckp s) (pg_wal s) (pg_snap s) (acked s) (proposed s).
-Definition set_rdp (s : state) (v : rd_pc) : state := mkState (segs s) (unflushed s) (unsynced s) (snapfiles s) (ckpts s) (engine s) (rc s) (nrel s) (wstate s) (wcommit s) (hcommit s) (latest s) v (rdseq s) (rd_done s) (rs_last s) (published s) (queue s) (app s) (applied s) (snapi s) (sns s) (ckp s) (pg_wal s) (pg_snap s) (acked s) (proposed s).
-Definition set_rdseq (s : state) (v : N) : state := mkState (segs s) (unflushed s) (unsynced s) (snapfiles s) (ckpts s) (engine s) (rc s) (nrel s) (wstate s) (wcommit s) (hcommit s) (latest s) (rdp s) v (rd_done s) (rs_last s) (published s) (queue s) (app s) (applied s) (snapi s) (sns s) (ckp s) (pg_wal s) (pg_snap s) (acked s) (proposed s).
-Definition set_rd_done (s : state) (v : N) : state := mkState (segs s) (unflushed s) (unsynced s) (snapfiles s) (ckpts s) (engine s) (rc s) (nrel s) (wstate s) (wcommit s) (hcommit s) (latest s) (rdp s) (rdseq s) v (rs_last s) (published s) (queue s) (app s) (applied s) (snapi s) (sns s) (ckp s) (pg_wal s) (pg_snap s) (acked s) (proposed s).
-Definition set_rs_last (s : state) (v : N) : state := mkState (segs s) (unflushed s) (unsynced s) (snapfiles s) (ckpts s) (engine s) (rc s) (nrel s) (wstate s) (wcommit s) (hcommit s) (latest s) (rdp s) (rdseq s) (rd_done s) v (published s) (queue s) (app s) (applied s) (snapi s) (sns s) (ckp s) (pg_wal s) (pg_snap s) (acked s) (proposed s).
-Definition set_published (s : state) (v : N) : state := mkState (segs s) (unflushed s) (unsynced s) (snapfiles s) (ckpts s) (engine s) (rc s) (nrel s) (wstate s) (wcommit s) (hcommit s) (latest s) (rdp s) (rdseq s) (rd_done s) (rs_last s) v (queue s) (app s) (applied s) (snapi s) (sns s) (ckp s) (pg_wal s) (pg_snap s) (acked s) (proposed s).
-Definition set_queue (s : state) (v : list batch) : state := mkState (segs s) (unflushed s) (unsynced s) (snapfiles s) (ckpts s) (engine s) (rc s) (nrel s) (wstate s) (wcommit s) (hcommit s) (latest s) (rdp s) (rdseq s) (rd_done s) (rs_last s) (published s) v (app s) (applied s) (snapi s) (sns s) (ckp s) (pg_wal s) (pg_snap s) (acked s) (proposed s).
-Definition set_app (s : state) (v : ap_pc) : state := mkState (segs s) (unflushed s) (unsynced s) (snapfiles s) (ckpts s) (engine s) (rc s) (nrel s) (wstate s) (wcommit s) (hcommit s) (latest s) (rdp s) (rdseq s) (rd_done s) (rs_last s) (published s) (queue s) v (applied s) (snapi s) (sns s) (ckp s) (pg_wal s) (pg_snap s) (acked s) (proposed s).
-Definition set_applied (s : state) (v : N) : state := mkState (segs s) (unflushed s) (unsynced s) (snapfiles s) (ckpts s) (engine s) (rc s) (nrel s) (wstate s) (wcommit s) (hcommit s) (latest s) (rdp s) (rdseq s) (rd_done s) (rs_last s) (published s) (queue s) (app s) v (snapi s) (sns s) (ckp s) (pg_wal s) (pg_snap s) (acked s) (proposed s).
-Definition set_snapi (s : state) (v : N) : state := mkState (segs s) (unflushed s) (unsynced s) (snapfiles s) (ckpts s) (engine s) (rc s) (nrel s) (wstate s) (wcommit s) (hcommit s) (latest s) (rdp s) (rdseq s) (rd_done s) (rs_last s) (published s) (queue s) (app s) (applied s) v (sns s) (ckp s) (pg_wal s) (pg_snap s) (acked s) (proposed s).
-Definition set_sns (s : state) (v : list (N * sn_pc)) : state := mkState (segs s) (unflushed s) (unsynced s) (snapfiles s) (ckpts s) (engine s) (rc s) (nrel s) (wstate s) (wcommit s) (hcommit s) (latest s) (rdp s) (rdseq s) (rd_done s) (rs_last s) (published s) (queue s) (app s) (applied s) (snapi s) v (ckp s) (pg_wal s) (pg_snap s) (acked s) (proposed s).
-Definition set_ckp (s : state) (v : ck_pc) : state := mkState (segs s) (unflushed s) (unsynced s) (snapfiles s) (ckpts s) (engine s) (rc s) (nrel s) (wstate s) (wcommit s) (hcommit s) (latest s) (rdp s) (rdseq s) (rd_done s) (rs_last s) (published s) (queue s) (app s) (applied s) (snapi s) (sns s) v (pg_wal s) (pg_snap s) (acked s) (proposed s).
-Definition set_pg_wal (s : state) (v : bool) : state := mkState (segs s) (unflushed s) (unsynced s) (snapfiles s) (ckpts s) (engine s) (rc s) (nrel s) (wstate s) (wcommit s) (hcommit s) (latest s) (rdp s) (rdseq s) (rd_done s) (rs_last s) (published s) (queue s) (app s) (applied s) (snapi s) (sns s) (ckp s) v (pg_snap s) (acked s) (proposed s).
-Definition set_pg_snap (s : state) (v : option N) : state := mkState (segs s) (unflushed s) (unsynced s) (snapfiles s) (ckpts s) (engine s) (rc s) (nrel s) (wstate s) (wcommit s) (hcommit s) (latest s) (rdp s) (rdseq s) (rd_done s) (rs_last s) (published s) (queue s) (app s) (applied s) (snapi s) (sns s) (ckp s) (pg_wal s) v (acked s) (proposed s).
-Definition set_acked (s : state) (v : N) : state := mkState (segs s) (unflushed s) (unsynced s) (snapfiles s) (ckpts s) (engine s) (rc s) (nrel s) (wstate s) (wcommit s) (hcommit s) (latest s) (rdp s) (rdseq s) (rd_done s) (rs_last s) (published s) (queue s) (app s) (applied s) (snapi s) (sns s) (ckp s) (pg_wal s) (pg_snap s) v (proposed s).
-Definition set_proposed (s : state) (v : N) : state := mkState (segs s) (unflushed s) (unsynced s) (snapfiles s) (ckpts s) (engine s) (rc s) (nrel s) (wstate s) (wcommit s) (hcommit s) (latest s) (rdp s) (rdseq s) (rd_done s) (rs_last s) (published s) (queue s) (app s) (applied s) (snapi s) (sns s) (ckp s) (pg_wal s) (pg_snap s) (acked s) v.
-
+Definition set_segs (s : state) (v : list seg) : state := mkState v (unflushed s) (unsynced s) (snapfiles s) (ckpts s) (engine s) (cache s) (restoring s) (rc s) (nrel s) (wstate s) (wcommit s) (hcommit s) (latest s) (rdp s) (rdseq s) (rd_done s) (rs_last s) (published s) (queue s) (app s) (applied s) (snapi s) (sns s) (ckp s) (pg_wal s) (pg_snap s) (acked s) (proposed s).
+Definition set_unflushed (s : state) (v : nat) : state := mkState (segs s) v (unsynced s) (snapfiles s) (ckpts s) (engine s) (cache s) (restoring s) (rc s) (nrel s) (wstate s) (wcommit s) (hcommit s) (latest s) (rdp s) (rdseq s) (rd_done s) (rs_last s) (published s) (queue s) (app s) (applied s) (snapi s) (sns s) (ckp s) (pg_wal s) (pg_snap s) (acked s) (proposed s).
+Definition set_unsynced (s : state) (v : nat) : state := mkState (segs s) (unflushed s) v (snapfiles s) (ckpts s) (engine s) (cache s) (restoring s) (rc s) (nrel s) (wstate s) (wcommit s) (hcommit s) (latest s) (rdp s) (rdseq s) (rd_done s) (rs_last s) (published s) (queue s) (app s) (applied s) (snapi s) (sns s) (ckp s) (pg_wal s) (pg_snap s) (acked s) (proposed s).
+Definition set_snapfiles (s : state) (v : list N) : state := mkState (segs s) (unflushed s) (unsynced s) v (ckpts s) (engine s) (cache s) (restoring s) (rc s) (nrel s) (wstate s) (wcommit s) (hcommit s) (latest s) (rdp s) (rdseq s) (rd_done s) (rs_last s) (published s) (queue s) (app s) (applied s) (snapi s) (sns s) (ckp s) (pg_wal s) (pg_snap s) (acked s) (proposed s).
+Definition set_ckpts (s : state) (v : list (N * option (list N))) : state := mkState (segs s) (unflushed s) (unsynced s) (snapfiles s) v (engine s) (cache s) (restoring s) (rc s) (nrel s) (wstate s) (wcommit s) (hcommit s) (latest s) (rdp s) (rdseq s) (rd_done s) (rs_last s) (published s) (queue s) (app s) (applied s) (snapi s) (sns s) (ckp s) (pg_wal s) (pg_snap s) (acked s) (proposed s).
+Definition set_engine (s : state) (v : option (list N)) : state := mkState (segs s) (unflushed s) (unsynced s) (snapfiles s) (ckpts s) v (cache s) (restoring s) (rc s) (nrel s) (wstate s) (wcommit s) (hcommit s) (latest s) (rdp s) (rdseq s) (rd_done s) (rs_last s) (published s) (queue s) (app s) (applied s) (snapi s) (sns s) (ckp s) (pg_wal s) (pg_snap s) (acked s) (proposed s).
+Definition set_cache (s : state) (v : list N) : state := mkState (segs s) (unflushed s) (unsynced s) (snapfiles s) (ckpts s) (engine s) v (restoring s) (rc s) (nrel s) (wstate s) (wcommit s) (hcommit s) (latest s) (rdp s) (rdseq s) (rd_done s) (rs_last s) (published s) (queue s) (app s) (applied s) (snapi s) (sns s) (ckp s) (pg_wal s) (pg_snap s) (acked s) (proposed s).
+Definition set_restoring (s : state) (v : option N) : state := mkState (segs s) (unflushed s) (unsynced s) (snapfiles s) (ckpts s) (engine s) (cache s) v (rc s) (nrel s) (wstate s) (wcommit s) (hcommit s) (latest s) (rdp s) (rdseq s) (rd_done s) (rs_last s) (published s) (queue s) (app s) (applied s) (snapi s) (sns s) (ckp s) (pg_wal s) (pg_snap s) (acked s) (proposed s).
+Definition set_rc (s : state) (v : rc_pc) : state := mkState (segs s) (unflushed s) (unsynced s) (snapfiles s) (ckpts s) (engine s) (cache s) (restoring s) v (nrel s) (wstate s) (wcommit s) (hcommit s) (latest s) (rdp s) (rdseq s) (rd_done s) (rs_last s) (published s) (queue s) (app s) (applied s) (snapi s) (sns s) (ckp s) (pg_wal s) (pg_snap s) (acked s) (proposed s).
+Definition set_nrel (s : state) (v : nat) : state := mkState (segs s) (unflushed s) (unsynced s) (snapfiles s) (ckpts s) (engine s) (cache s) (restoring s) (rc s) v (wstate s) (wcommit s) (hcommit s) (latest s) (rdp s) (rdseq s) (rd_done s) (rs_last s) (published s) (queue s) (app s) (applied s) (snapi s) (sns s) (ckp s) (pg_wal s) (pg_snap s) (acked s) (proposed s).
+Definition set_wstate (s : state) (v : bool) : state := mkState (segs s) (unflushed s) (unsynced s) (snapfiles s) (ckpts s) (engine s) (cache s) (restoring s) (rc s) (nrel s) v (wcommit s) (hcommit s) (latest s) (rdp s) (rdseq s) (rd_done s) (rs_last s) (published s) (queue s) (app s) (applied s) (snapi s) (sns s) (ckp s) (pg_wal s) (pg_snap s) (acked s) (proposed s).
+Definition set_wcommit (s : state) (v : N) : state := mkState (segs s) (unflushed s) (unsynced s) (snapfiles s) (ckpts s) (engine s) (cache s) (restoring s) (rc s) (nrel s) (wstate s) v (hcommit s) (latest s) (rdp s) (rdseq s) (rd_done s) (rs_last s) (published s) (queue s) (app s) (applied s) (snapi s) (sns s) (ckp s) (pg_wal s) (pg_snap s) (acked s) (proposed s).
+Definition set_hcommit (s : state) (v : N) : state := mkState (segs s) (unflushed s) (unsynced s) (snapfiles s) (ckpts s) (engine s) (cache s) (restoring s) (rc s) (nrel s) (wstate s) (wcommit s) v (latest s) (rdp s) (rdseq s) (rd_done s) (rs_last s) (published s) (queue s) (app s) (applied s) (snapi s) (sns s) (ckp s) (pg_wal s) (pg_snap s) (acked s) (proposed s).
+Definition set_latest (s : state) (v : N) : state := mkState (segs s) (unflushed s) (unsynced s) (snapfiles s) (ckpts s) (engine s) (cache s) (restoring s) (rc s) (nrel s) (wstate s) (wcommit s) (hcommit s) v (rdp s) (rdseq s) (rd_done s) (rs_last s) (published s) (queue s) (app s) (applied s) (snapi s) (sns s) (ckp s) (pg_wal s) (pg_snap s) (acked s) (proposed s).
+Definition set_rdp (s : state) (v : rd_pc) : state := mkState (segs s) (unflushed s) (unsynced s) (snapfiles s) (ckpts s) (engine s) (cache s) (restoring s) (rc s) (nrel s) (wstate s) (wcommit s) (hcommit s) (latest s) v (rdseq s) (rd_done s) (rs_last s) (published s) (queue s) (app s) (applied s) (snapi s) (sns s) (ckp s) (pg_wal s) (pg_snap s) (acked s) (proposed s).
+Definition set_rdseq (s : state) (v : N) : state := mkState (segs s) (unflushed s) (unsynced s) (snapfiles s) (ckpts s) (engine s) (cache s) (restoring s) (rc s) (nrel s) (wstate s) (wcommit s) (hcommit s) (latest s) (rdp s) v (rd_done s) (rs_last s) (published s) (queue s) (app s) (applied s) (snapi s) (sns s) (ckp s) (pg_wal s) (pg_snap s) (acked s) (proposed s).
+Definition set_rd_done (s : state) (v : N) : state := mkState (segs s) (unflushed s) (unsynced s) (snapfiles s) (ckpts s) (engine s) (cache s) (restoring s) (rc s) (nrel s) (wstate s) (wcommit s) (hcommit s) (latest s) (rdp s) (rdseq s) v (rs_last s) (published s) (queue s) (app s) (applied s) (snapi s) (sns s) (ckp s) (pg_wal s) (pg_snap s) (acked s) (proposed s).
+Definition set_rs_last (s : state) (v : N) : state := mkState (segs s) (unflushed s) (unsynced s) (snapfiles s) (ckpts s) (engine s) (cache s) (restoring s) (rc s) (nrel s) (wstate s) (wcommit s) (hcommit s) (latest s) (rdp s) (rdseq s) (rd_done s) v (published s) (queue s) (app s) (applied s) (snapi s) (sns s) (ckp s) (pg_wal s) (pg_snap s) (acked s) (proposed s).
+Definition set_published (s : state) (v : N) : state := mkState (segs s) (unflushed s) (unsynced s) (snapfiles s) (ckpts s) (engine s) (cache s) (restoring s) (rc s) (nrel s) (wstate s) (wcommit s) (hcommit s) (latest s) (rdp s) (rdseq s) (rd_done s) (rs_last s) v (queue s) (app s) (applied s) (snapi s) (sns s) (ckp s) (pg_wal s) (pg_snap s) (acked s) (proposed s).
+Definition set_queue (s : state) (v : list batch) : state := mkState (segs s) (unflushed s) (unsynced s) (snapfiles s) (ckpts s) (engine s) (cache s) (restoring s) (rc s) (nrel s) (wstate s) (wcommit s) (hcommit s) (latest s) (rdp s) (rdseq s) (rd_done s) (rs_last s) (published s) v (app s) (applied s) (snapi s) (sns s) (ckp s) (pg_wal s) (pg_snap s) (acked s) (proposed s).
+Definition set_app (s : state) (v : ap_pc) : state := mkState (segs s) (unflushed s) (unsynced s) (snapfiles s) (ckpts s) (engine s) (cache s) (restoring s) (rc s) (nrel s) (wstate s) (wcommit s) (hcommit s) (latest s) (rdp s) (rdseq s) (rd_done s) (rs_last s) (published s) (queue s) v (applied s) (snapi s) (sns s) (ckp s) (pg_wal s) (pg_snap s) (acked s) (proposed s).
+Definition set_applied (s : state) (v : N) : state := mkState (segs s) (unflushed s) (unsynced s) (snapfiles s) (ckpts s) (engine s) (cache s) (restoring s) (rc s) (nrel s) (wstate s) (wcommit s) (hcommit s) (latest s) (rdp s) (rdseq s) (rd_done s) (rs_last s) (published s) (queue s) (app s) v (snapi s) (sns s) (ckp s) (pg_wal s) (pg_snap s) (acked s) (proposed s).
+Definition set_snapi (s : state) (v : N) : state := mkState (segs s) (unflushed s) (unsynced s) (snapfiles s) (ckpts s) (engine s) (cache s) (restoring s) (rc s) (nrel s) (wstate s) (wcommit s) (hcommit s) (latest s) (rdp s) (rdseq s) (rd_done s) (rs_last s) (published s) (queue s) (app s) (applied s) v (sns s) (ckp s) (pg_wal s) (pg_snap s) (acked s) (proposed s).
+Definition set_sns (s : state) (v : list (N * sn_pc)) : state := mkState (segs s) (unflushed s) (unsynced s) (snapfiles s) (ckpts s) (engine s) (cache s) (restoring s) (rc s) (nrel s) (wstate s) (wcommit s) (hcommit s) (latest s) (rdp s) (rdseq s) (rd_done s) (rs_last s) (published s) (queue s) (app s) (applied s) (snapi s) v (ckp s) (pg_wal s) (pg_snap s) (acked s) (proposed s).
+Definition set_ckp (s : state) (v : ck_pc) : state := mkState (segs s) (unflushed s) (unsynced s) (snapfiles s) (ckpts s) (engine s) (cache s) (restoring s) (rc s) (nrel s) (wstate s) (wcommit s) (hcommit s) (latest s) (rdp s) (rdseq s) (rd_done s) (rs_last s) (published s) (queue s) (app s) (applied s) (snapi s) (sns s) v (pg_wal s) (pg_snap s) (acked s) (proposed s).
+Definition set_pg_wal (s : state) (v : bool) : state := mkState (segs s) (unflushed s) (unsynced s) (snapfiles s) (ckpts s) (engine s) (cache s) (restoring s) (rc s) (nrel s) (wstate s) (wcommit s) (hcommit s) (latest s) (rdp s) (rdseq s) (rd_done s) (rs_last s) (published s) (queue s) (app s) (applied s) (snapi s) (sns s) (ckp s) v (pg_snap s) (acked s) (proposed s).
+Definition set_pg_snap (s : state) (v : option N) : state := mkState (segs s) (unflushed s) (unsynced s) (snapfiles s) (ckpts s) (engine s) (cache s) (restoring s) (rc s) (nrel s) (wstate s) (wcommit s) (hcommit s) (latest s) (rdp s) (rdseq s) (rd_done s) (rs_last s) (published s) (queue s) (app s) (applied s) (snapi s) (sns s) (ckp s) (pg_wal s) v (acked s) (proposed s).
+Definition set_acked (s : state) (v : N) : state := mkState (segs s) (unflushed s) (unsynced s) (snapfiles s) (ckpts s) (engine s) (cache s) (restoring s) (rc s) (nrel s) (wstate s) (wcommit s) (hcommit s) (latest s) (rdp s) (rdseq s) (rd_done s) (rs_last s) (published s) (queue s) (app s) (applied s) (snapi s) (sns s) (ckp s) (pg_wal s) (pg_snap s) v (proposed s).
+Definition set_proposed (s : state) (v : N) : state := mkState (segs s) (unflushed s) (unsynced s) (snapfiles s) (ckpts s) (engine s) (cache s) (restoring s) (rc s) (nrel s) (wstate s) (wcommit s) (hcommit s) (latest s) (rdp s) (rdseq s) (rd_done s) (rs_last s) (published s) (queue s) (app s) (applied s) (snapi s) (sns s) (ckp s) (pg_wal s) (pg_snap s) (acked s) v.
 
 Notation "s <| f := v |>" := (f s v) (at level 12, left associativity, f at level 0, only parsing).
 
 (* a fresh directory: CleanData, wal.Create writes the marker of the empty snapshot *)
 Definition init_state : state :=
-  mkState [mkSeg 0 [RSnap 0]] 0 0 [] [] (Some []) RcRunning 0 false 0 0 0 RdIdle 0 0 0 0 [] ApIdle 0 0 [] CkIdle false None 0 0.
+  mkState [mkSeg 0 [RSnap 0]] 0 0 [] [] (Some []) [] None RcRunning 0 false 0 0 0 RdIdle 0 0 0 0 [] ApIdle 0 0 [] CkIdle false None 0 0.
 
 (* ---------- events (= the crash point names of the Go code) ---------- *)
 
@@ -336,6 +343,7 @@ Inductive event :=
 | EvRdAppendAfter | EvRdAdvance                  (* rd.append.after / rd.advance.before *)
 | EvApBefore (a n : N) | EvApAfter (a : N) | EvApRaftDone (a : N)     (* ap.apply.before / after, ap.raftdone.after *)
 | EvApTriggerBefore (a s : N) | EvApTriggerAfter (a s : N)          (* ap.trigger.before / after *)
+| EvCkFlush                                      (* ck.cacheflush.after *)
 | EvCkSaveBefore | EvCkSaveAfter | EvCkPurgeBefore | EvCkPurgeAfter (* ck.save.*, ck.purge.* *)
 | EvCkPartial                                    (* not logged: the checkpoint directory exists, its content is incomplete *)
 | EvCkPurgeOne                                   (* not logged: purgeOldCheckpoint removed one more directory *)
@@ -349,6 +357,7 @@ Inductive event :=
 | EvRcFresh                                      (* startRaft found a wal without raft state (fix b2b9705): new node *)
 | EvRcChosen (i : N) | EvRcNone                  (* rc.snap.chosen / rc.snap.none *)
 | EvRsRemoved (i : N) | EvRsCopied (i : N) | EvRcRestored (i : N)   (* rs.remove.after, rs.copy.after, rc.restore.after *)
+| EvRsMarkerGone                                 (* not logged: restoreFromPath removed its marker file *)
 | EvRcReplay (n last commit : N).                (* rc.replay.after *)
 
 (* reject reasons (reported by the acceptor) *)
@@ -416,7 +425,7 @@ Definition sn_step (s : state) (i : N) (from to : sn_pc) (f : state -> state) : 
 Definition last_of (l : list N) : N := last l 0.
 
 Definition reset_volatile (s : state) : state :=
-  mkState (segs s) 0 0 (snapfiles s) (ckpts s) None RcStart (length (segs s)) false 0 0 0 RdIdle 0 0 0 0 [] ApIdle 0 0 []
+  mkState (segs s) 0 0 (snapfiles s) (ckpts s) None [] (restoring s) RcStart (length (segs s)) false 0 0 0 RdIdle 0 0 0 0 [] ApIdle 0 0 []
           CkIdle false None (acked s) (proposed s).
 
 (* wal.Save: entries and hard state are encoded into the tail segment (still buffered) *)
@@ -440,6 +449,10 @@ Definition image (s : state) (j extra : nat) : option (list seg) :=
     | _, _ => None
     end
   end.
+
+(* a restore that a previous life did not finish: the marker is there and the files are not (known to be) complete *)
+Definition restore_pending (s : state) : bool :=
+  match restoring s, engine s with Some _, None => true | _, _ => false end.
 
 Definition step (c : config) (s : state) (ev : event) : result state :=
   match ev with
@@ -539,7 +552,8 @@ Definition step (c : config) (s : state) (ev : event) : result state :=
         | None => Err R_ENGINE
         | Some l =>
           if negb (a =? na) then Err R_ARG
-          else Ok (s <| set_engine := Some (l ++ range (applied s) na) |> <| set_applied := na |>
+          else Ok (s <| set_engine := Some (l ++ range (applied s) na) |> <| set_cache := cache s ++ range (applied s) na |>
+                     <| set_applied := na |>
                      <| set_acked := N.max (acked s) na |> <| set_app := ApApplied b |>)
         end
     | _ => Err R_PC
@@ -556,19 +570,28 @@ Definition step (c : config) (s : state) (ev : event) : result state :=
     end
   | EvApTriggerAfter a sn =>
     match app s with
-    | ApTrigger | ApTriggerDone =>
+    | ApTrigger | ApFlushed | ApTriggerDone =>
       if (a =? applied s) && (sn =? snapi s) then Ok (s <| set_app := ApIdle |>) else Err R_ARG
     | _ => Err R_PC
     end
   (* ----- backup loop: checkpoint asked for by maybeTriggerSnapshot -> beginSnapshot -> Backup ----- *)
+  | EvCkFlush =>
+    (* hllCache.Flush: when maybeTriggerSnapshot decided to snapshot, beginSnapshot -> GetSnapshot -> RockDB.Backup
+       flushes the cache before it queues the checkpoint *)
+    match app s with
+    | ApTrigger => Ok (s <| set_cache := [] |> <| set_app := ApFlushed |>)
+    | _ => Ok (s <| set_cache := [] |>)          (* any other flush of the cache (eviction, close) *)
+    end
   | EvCkSaveBefore =>
-    match app s, ckp s, engine s with
-    | ApTrigger, CkIdle, Some l =>
-      if snapi s <? applied s
-      then Ok (s <| set_ckpts := remove_ckpt (applied s) (ckpts s) |> <| set_ckp := CkSaving (applied s) l |>
+    (* the backup loop takes the request: the checkpoint captures what is in the engine, not what is only cached *)
+    match ckp s, engine s with
+    | CkIdle, Some l =>
+      if (match app s with ApFlushed => true | ApTrigger => negb (flush_first c) | _ => false end) && (snapi s <? applied s)
+      then Ok (s <| set_ckpts := remove_ckpt (applied s) (ckpts s) |>
+                 <| set_ckp := CkSaving (applied s) (filter (fun i => negb (memN i (cache s))) l) |>
                  <| set_app := ApTriggered (applied s) |>)
-      else Err R_GUARD
-    | _, _, _ => Err R_PC
+      else Err R_PC
+    | _, _ => Err R_PC
     end
   | EvCkSaveAfter =>
     match ckp s with
@@ -659,7 +682,8 @@ Definition step (c : config) (s : state) (ev : event) : result state :=
       match read_all (segs s) 0 with
       | Ok ([], cm) =>
         if existsb (fun r => match r with RState _ => true | _ => false end) (all_recs (segs s)) then Err R_GUARD
-        else Ok (mkState [mkSeg 0 [RSnap 0]] 0 0 (snapfiles s) (ckpts s) (Some []) RcRunning 0 false 0 0 0 RdIdle 0 0 0 0 []
+        else if restore_pending s then Err R_PC
+        else Ok (mkState [mkSeg 0 [RSnap 0]] 0 0 (snapfiles s) (ckpts s) (Some []) [] None RcRunning 0 false 0 0 0 RdIdle 0 0 0 0 []
                          ApIdle 0 0 [] CkIdle false None (acked s) (proposed s))
       | _ => Err R_GUARD
       end
@@ -668,11 +692,13 @@ Definition step (c : config) (s : state) (ev : event) : result state :=
   | EvRcChosen i =>
     match rc s with
     | RcStart =>
+      if restore_pending s then Err R_PC
+      else
       match choose_snapshot (segs s) (snapfiles s) with
       | Some j =>
         if i =? j
         then Ok (s <| set_snapfiles := if clean_orphans c then remove_orphans (segs s) (snapfiles s) (Some j) else snapfiles s |>
-                   <| set_latest := j |> <| set_rc := RcChosen j |>)
+                   <| set_latest := j |> <| set_restoring := None |> <| set_rc := RcChosen j |>)
         else Err R_ARG
       | None => Err R_ARG
       end
@@ -681,21 +707,35 @@ Definition step (c : config) (s : state) (ev : event) : result state :=
   | EvRcNone =>
     match rc s with
     | RcStart =>
+      if restore_pending s then Err R_PC
+      else
       match choose_snapshot (segs s) (snapfiles s) with
       | None => Ok (s <| set_snapfiles := if clean_orphans c then remove_orphans (segs s) (snapfiles s) None else snapfiles s |>
-                      <| set_engine := Some [] |> <| set_rc := RcNone |>)
+                      <| set_engine := Some [] |> <| set_restoring := None |> <| set_rc := RcNone |>)
       | Some _ => Err R_ARG
       end
     | _ => Err R_PC
     end
   | EvRsRemoved i =>
+    (* restoreFromPath has written its marker and removed the files of the data directory: either the restore of the
+       chosen snapshot, or (rockredis OpenRockDB, fix d2f1422) the restore a previous life was interrupted in *)
     match rc s with
     | RcChosen j =>
       if negb (i =? j) then Err R_ARG
       else match lookup j (ckpts s) with
-           | Some _ => Ok (s <| set_engine := None |>)
+           | Some _ => Ok (s <| set_engine := None |> <| set_restoring := Some j |>)
            | None => Err R_RECOVER
            end
+    | RcStart =>
+      match restoring s with
+      | Some j =>
+        if negb (i =? j) then Err R_ARG
+        else match lookup j (ckpts s) with
+             | Some _ => Ok (s <| set_engine := None |>)
+             | None => Err R_RECOVER
+             end
+      | None => Err R_PC
+      end
     | _ => Err R_PC
     end
   | EvRsCopied i =>
@@ -706,13 +746,28 @@ Definition step (c : config) (s : state) (ev : event) : result state :=
            | Some l => Ok (s <| set_engine := Some l |>)
            | None => Err R_RECOVER
            end
+    | RcStart =>
+      match restoring s with
+      | Some j =>
+        if negb (i =? j) then Err R_ARG
+        else match lookup j (ckpts s) with
+             | Some l => Ok (s <| set_engine := Some l |>)
+             | None => Err R_RECOVER
+             end
+      | None => Err R_PC
+      end
     | _ => Err R_PC
+    end
+  | EvRsMarkerGone =>
+    match restoring s, engine s with
+    | Some _, Some _ => if running s then Err R_PC else Ok (s <| set_restoring := None |>)
+    | _, _ => Err R_PC
     end
   | EvRcRestored i =>
     match rc s, engine s with
     | RcChosen j, Some _ =>
       if negb (i =? j) then Err R_ARG
-      else Ok (s <| set_ckpts := purge_ckpts (eff_keep_ckpt c) (latest s) (ckpts s) |> <| set_rc := RcRestored j |>)
+      else Ok (s <| set_ckpts := purge_ckpts (eff_keep_ckpt c) (latest s) (ckpts s) |> <| set_restoring := None |> <| set_rc := RcRestored j |>)
     | RcChosen _, None => Err R_ENGINE
     | _, _ => Err R_PC
     end
@@ -772,8 +827,9 @@ Definition inflight (s : state) : list event :=
   ++ (match ckp s with CkSaving _ _ => [EvCkPartial] | CkPurging _ => [EvCkPurgeOne; EvCkPurgeOne; EvCkPurgeOne; EvCkPurgeOne] | _ => [] end)
   ++ (if pg_wal s then [EvPgAfter 3] else []) ++ (match pg_snap s with Some _ => [EvPgAfter 4] | None => [] end)
   ++ (match rc s with
-      | RcStart => match choose_snapshot (segs s) (snapfiles s) with Some i => [EvRcChosen i] | None => [EvRcNone] end
-      | RcChosen i => match engine s with Some _ => [EvRcRestored i] | None => [] end
+      | RcStart => (match restoring s, engine s with Some _, Some _ => [EvRsMarkerGone] | _, _ => [] end)
+                   ++ match choose_snapshot (segs s) (snapfiles s) with Some i => [EvRcChosen i] | None => [EvRcNone] end
+      | RcChosen i => match engine s with Some _ => [EvRsMarkerGone; EvRcRestored i] | None => [] end
       | _ => []
       end).
 
